@@ -15,12 +15,22 @@ mod c08;
 mod c09;
 mod c10;
 mod c11;
+mod c12;
+mod c13;
+mod alloc;
+
+#[global_allocator]
+static GLOBAL: alloc::Counting = alloc::Counting;
 mod st;
 
 use common::*;
 
 fn main() {
   let args: Vec<String> = std::env::args().collect();
+  if args.len() >= 4 && args[1] == "DECODE1" {
+    c12::child_decode(&args[2], &args[3]);
+    return;
+  }
   if args.len() < 4 {
     eprintln!("usage: mocverif <property> <quick|thorough> <out.json> [--replay <case line>]");
     std::process::exit(2);
@@ -45,6 +55,8 @@ fn main() {
     "C09" => c09::run(&ctx),
     "C10" => c10::run(&ctx),
     "C11" => c11::run(&ctx),
+    "C12" => c12::run(&ctx),
+    "C13" => c13::run(&ctx),
     _ => {
       eprintln!("unknown property {}", prop);
       std::process::exit(2);
